@@ -1,4 +1,5 @@
 import GroupbyVerif.Model.Proto
+import GroupbyVerif.Model.Align
 
 /-!
 # gbdriver — executable model behind the line protocol
@@ -156,6 +157,16 @@ def opNanop (kv : KV) : Option String := do
   let spec := if skipna != 0 then (if arr.isEmpty && (op == .min || op == .max) then "undefined" else (specNan op k arr).toStr) else "na"
   pure s!"model={model} spec={spec}"
 
+/-- `align nkeys=<n> keyidx=<id|_> lens=<..> idxs=<..>`: does the validation accept the call? -/
+def opAlign (kv : KV) : Option String := do
+  let nKeys ← parseNat (← get kv "nkeys")
+  let ki := (← get kv "keyidx")
+  let keyIndex ← if ki == "_" then pure none else (parseNat ki).map some
+  let lens ← (splitComma (← get kv "lens")).mapM parseNat
+  let idxs ← (splitComma (← get kv "idxs")).mapM parseNat
+  let r := GV.C18.accepts nKeys keyIndex lens idxs
+  pure s!"model={if r then "accept" else "reject"} spec={if r then "accept" else "reject"}"
+
 def opScalar (kv : KV) : Option String := do
   let fn ← get kv "fn"
   let k ← parseKind (← get kv "kind")
@@ -181,6 +192,7 @@ def step (line : String) : String :=
       | "roll" => opRoll kv
       | "ema" => opEma kv
       | "nanop" => opNanop kv
+      | "align" => opAlign kv
       | "firstlast" => opFirstLast kv
       | "mono" => opMono kv
       | _ => none
